@@ -3060,6 +3060,54 @@ pub fn BrotliWriteMetadataMetaBlock(
     }
 }
 
+/// Verification hooks (compiled only with `--cfg brotli_verif`): thin public
+/// wrappers around private helpers so that an external harness can compare
+/// them with an executable model.  No behaviour of the crate depends on them.
+#[cfg(brotli_verif)]
+pub mod verif_hooks {
+    use super::*;
+
+    pub fn block_length_prefix_code(len: u32) -> (usize, u32, u32) {
+        let mut code = 0usize;
+        let mut n_extra = 0u32;
+        let mut extra = 0u32;
+        GetBlockLengthPrefixCode(len, &mut code, &mut n_extra, &mut extra);
+        (code, n_extra, extra)
+    }
+
+    pub fn encode_mlen(length: u32) -> (u64, u32, u32) {
+        let mut bits = 0u64;
+        let mut numbits = 0u32;
+        let mut nibblesbits = 0u32;
+        BrotliEncodeMlen(length, &mut bits, &mut numbits, &mut nibblesbits);
+        (bits, numbits, nibblesbits)
+    }
+
+    /// (number of bits written, storage bytes)
+    pub fn store_var_len_uint8(n: u64) -> (usize, [u8; 16]) {
+        let mut storage = [0u8; 16];
+        let mut ix = 0usize;
+        StoreVarLenUint8(n, &mut ix, &mut storage);
+        (ix, storage)
+    }
+
+    /// (number of bits written, storage bytes)
+    pub fn store_command_extra(cmd: &Command) -> (usize, [u8; 24]) {
+        let mut storage = [0u8; 24];
+        let mut ix = 0usize;
+        StoreCommandExtra(cmd, &mut ix, &mut storage);
+        (ix, storage)
+    }
+
+    pub fn copy_len_code(cmd: &Command) -> u32 {
+        cmd.copy_len_code()
+    }
+
+    pub fn base_128(value: u64) -> (usize, [u8; MAX_SIZE_ENCODING]) {
+        encode_base_128(value)
+    }
+}
+
 #[cfg(test)]
 mod test {
     use crate::enc::brotli_bit_stream::{encode_base_128, MAX_SIZE_ENCODING};
